@@ -90,6 +90,59 @@ func c16CheckResult(c *drv.Ctx, name string, in, got Path, e2 int64, closed bool
 	}
 }
 
+// c16BoundaryScope: an open path a, m, b, c (c far off the chord a-b) whose vertex m lies at an integer height d above (or beside) the
+// chord a-b, with epsilon a fraction of a unit below or above d, at heights from 16 to 2^28: the decision
+// "d <= epsilon" is exact in float64 at every one of these magnitudes (d^2 < 2^57 is an integer with at most 30
+// significant bits ... in short: representable), but not in any narrower arithmetic. The middle vertex must be
+// kept exactly when d > epsilon; the margin |d - epsilon| >= 0.1 is far outside the 1e-9 relative guard.
+func c16BoundaryScope() *drv.Scope {
+	type cs struct {
+		d   int64
+		eps float64
+		ver bool
+	}
+	var cases []cs
+	for _, k := range []uint{4, 10, 20, 24, 26, 27, 28} {
+		E := int64(1) << k
+		for _, off := range []float64{3.9, 0.45, -0.45, 7.1, -2.3} {
+			eps := float64(E) + off
+			for _, d := range []int64{int64(eps), int64(eps) + 1} {
+				cases = append(cases, cs{d, eps, false}, cs{d, eps, true})
+			}
+		}
+	}
+	return &drv.Scope{Name: "boundary/middle vertex a fraction of a unit inside or outside epsilon, heights 16..2^28", Level: 1, Size: uint64(len(cases)),
+		Show: func(idx uint64) any {
+			return map[string]any{"height": cases[idx].d, "epsilon": cases[idx].eps, "vertical chord": cases[idx].ver}
+		},
+		Run: func(c *drv.Ctx, idx uint64) {
+			cse := cases[idx]
+			L := 3*cse.d + 7
+			// a fourth vertex far off the chord: paths of fewer than 4 points are returned as they are
+			in := Path{{X: 0, Y: 0}, {X: L, Y: cse.d}, {X: 2 * L, Y: 0}, {X: 2 * L, Y: -9 * L}}
+			if cse.ver {
+				in = Path{{X: 5, Y: -L}, {X: 5 - cse.d, Y: 0}, {X: 5, Y: L}, {X: 5 + 9*L, Y: L}}
+			}
+			wantKept := float64(cse.d) > cse.eps
+			for _, name := range []string{"SimplifyPath64", "SimplifyPathD"} {
+				var kept bool
+				var n int
+				if name == "SimplifyPath64" {
+					got := clipper.SimplifyPath64(enum.ClonePath(in), cse.eps, false)
+					n, kept = len(got), len(got) == 4
+				} else {
+					got := clipper.SimplifyPathD(clipper.Path64ToPathD(in), cse.eps, false)
+					n, kept = len(got), len(got) == 4
+				}
+				c.Exec(1)
+				if n < 3 || kept != wantKept {
+					c.Fail("boundary", name, "%s(%v, epsilon=%v, open) returned %d vertices: the middle vertex is %d from the chord, so it must be kept=%v", name, in, cse.eps, n, cse.d, wantKept)
+				}
+			}
+			c.Nontriv()
+		}}
+}
+
 func c16Scope(e enum.Embed, k, n int, level int) *drv.Scope {
 	var buf Path
 	return &drv.Scope{Name: fmt.Sprintf("simplify/P(%d,%d)/%s", k, n, e.Name), Level: level, Size: enum.PathCount(k, n),
@@ -196,7 +249,7 @@ func init() {
 		Assumptions:      []string{"<= 6 vertices; a vertex at a distance within 1e-9 (relative) of epsilon is accepted either way (float64 rounding of the library's squared distance)"},
 		RequiredCounters: []string{"paths_partially_simplified"},
 		Scopes: func(tier string) []*drv.Scope {
-			var out []*drv.Scope
+			out := []*drv.Scope{c16BoundaryScope()}
 			maxN := 6
 			for _, e := range []enum.Embed{enum.Eunit, enum.Eax, enum.Ean} {
 				for n := 3; n <= maxN; n++ {
